@@ -339,8 +339,8 @@ G = "cartgraph/graph.py"
 NODE = "cartgraph/node.py"
 R = "plugins/runner.py"
 MUTANTS = [
-    ("wait-budget-one-timeout", G, "                test_duration = next.params.get_numeric(\"test_timeout\", 3600) * max(\n                    next.params.get_numeric(\"max_tries\", 1), 1\n                )", "                test_duration = next.params.get_numeric(\"test_timeout\", 3600)", "14"),
-    ("wait-budget-zero-tries", G, "                test_duration = next.params.get_numeric(\"test_timeout\", 3600) * max(\n                    next.params.get_numeric(\"max_tries\", 1), 1\n                )", "                test_duration = next.params.get_numeric(\"test_timeout\", 3600) * next.params.get_numeric(\"max_tries\", 1)", "14"),
+    ("wait-budget-one-timeout", G, "                test_duration = next.params.get_numeric(\"test_timeout\", 3600) * max(\n                    next.params.get_numeric(\n                        \"max_tries\", 2 if next.params.get(\"replay\") else 1\n                    ),\n                    1,\n                )", "                test_duration = next.params.get_numeric(\"test_timeout\", 3600)", "14"),
+    ("wait-budget-zero-tries", G, "                test_duration = next.params.get_numeric(\"test_timeout\", 3600) * max(\n                    next.params.get_numeric(\n                        \"max_tries\", 2 if next.params.get(\"replay\") else 1\n                    ),\n                    1,\n                )", "                test_duration = next.params.get_numeric(\"test_timeout\", 3600) * next.params.get_numeric(\"max_tries\", 2 if next.params.get(\"replay\") else 1)", "14"),
     ("wait-budget-root-single", G, "                if next.is_object_root():\n                    # each try at creating an object consists of two consecutive test runs\n                    test_duration *= 2\n", "", "14r"),
     ("P-wait-budget-root-inline", G, "                if next.is_object_root():\n                    # each try at creating an object consists of two consecutive test runs\n                    test_duration *= 2\n", "                if next.is_object_root():\n                    test_duration = test_duration * 2\n", None),
     ("sync-failure-raises", NODE, "            except ShellCmdError as error:\n                logging.warning(\n                    f\"{action} {self} for {self.started_worker.id} could not be completed \"", "            except ShellCmdError as error:\n                if \"AssertionError\" not in error.output:\n                    raise RuntimeError(\"sync failed\")\n                logging.warning(\n                    f\"{action} {self} for {self.started_worker.id} could not be completed \"", "15"),
